@@ -236,6 +236,14 @@ thread_local! {
     static LIVE_AT_QUIESCENCE: std::cell::Cell<u64> = const { std::cell::Cell::new(0) };
 }
 
+/// Idle gaps in the dispatching lane: after every `LANE_GAP_EVERY` frames the lane sleeps `LANE_GAP_MS`
+/// (several times the workers' receive timeout), so workers go idle in the middle of connections.
+/// When set, results other than the sentinels' are counted but not kept (memory measurements must not
+/// include the harness's own copy of the results).
+pub static DISCARD_RESULTS: std::sync::atomic::AtomicBool = std::sync::atomic::AtomicBool::new(false);
+pub static LANE_GAP_MS: std::sync::atomic::AtomicU64 = std::sync::atomic::AtomicU64::new(0);
+pub static LANE_GAP_EVERY: std::sync::atomic::AtomicU64 = std::sync::atomic::AtomicU64::new(3);
+
 pub fn run_pool(kind: Kind, n: usize, queue: usize, batch: usize, timeout_ms: u64, max_conn: usize, lanes: Vec<Vec<Vec<u8>>>, r: &mut Rng) -> PoolRun {
     freeze_clock();
     let sentinels = sentinel_sources(kind, n, r);
@@ -265,7 +273,12 @@ pub fn run_pool(kind: Kind, n: usize, queue: usize, batch: usize, timeout_ms: u6
         let sh = Arc::clone(&shared);
         handles.push(std::thread::spawn(move || {
             let mut out = vec![];
-            for f in lane {
+            let gap = LANE_GAP_MS.load(std::sync::atomic::Ordering::SeqCst);
+            let every = LANE_GAP_EVERY.load(std::sync::atomic::Ordering::SeqCst).max(1) as usize;
+            for (i, f) in lane.into_iter().enumerate() {
+                if gap > 0 && i > 0 && i % every == 0 {
+                    std::thread::sleep(Duration::from_millis(gap));
+                }
                 let w = worker_of(kind, &f, n).unwrap_or(usize::MAX);
                 let q = sh.0.dispatch(f);
                 out.push((w, q));
@@ -318,7 +331,7 @@ pub fn run_pool(kind: Kind, n: usize, queue: usize, batch: usize, timeout_ms: u6
             Some(Some(kd)) => {
                 if sentinel_ips.iter().any(|ip| kd.0.starts_with(&format!("{ip}:")) || kd.0 == *ip) {
                     seen += 1;
-                } else {
+                } else if !DISCARD_RESULTS.load(std::sync::atomic::Ordering::SeqCst) {
                     results.push(kd);
                 }
             }
@@ -414,10 +427,16 @@ pub fn run(ctx: &mut Ctx) {
             let max_conn = if tight { conns.len() * if kind == Kind::Tcp { 4 } else { 1 } } else { 1000 };
             let seq = sequential(kind, &frames, max_conn);
             let batch = *r.pick(&[1usize, 8, 32]);
-            let timeout = *r.pick(&[1u64, 10]);
+            // every fourth round: the dispatcher pauses for 8x the workers' receive timeout every few
+            // frames, so workers time out idle in the middle of connections (state must survive)
+            let gaps = round % 4 == 1;
+            let timeout = if gaps { 1 } else { *r.pick(&[1u64, 10]) };
+            LANE_GAP_MS.store(if gaps { 8 } else { 0 }, std::sync::atomic::Ordering::SeqCst);
+            LANE_GAP_EVERY.store(r.range(2, 5), std::sync::atomic::Ordering::SeqCst);
             let run = run_pool(kind, n, frames.len() + 64, batch, timeout, max_conn, vec![frames.clone()], &mut r);
+            LANE_GAP_MS.store(0, std::sync::atomic::Ordering::SeqCst);
             let mut l = Line::op("C10.pool");
-            l.tok(&format!("{}{}", kind.name(), if tight { "-tightcap" } else { "" })).usize(n).usize(batch).nat(timeout).usize(frames.len()).usize(conns.len());
+            l.tok(&format!("{}{}{}", kind.name(), if tight { "-tightcap" } else { "" }, if gaps { "-gaps" } else { "" })).usize(n).usize(batch).nat(timeout).usize(frames.len()).usize(conns.len());
             l.usize(seq.len());
             l.text(&group(&seq));
             let all_queued = run.outcomes.iter().all(|o| o.1);
